@@ -726,11 +726,32 @@ def _nonempty_atom(e, truth):
         return _canon(e["recv"]) if truth is False else None
     if e.get("e") == "binary" and e.get("op") in ("Gt", "Ne", "Ge", "Eq", "Lt", "Le"):
         a, b = hirq.strip(e["a"]), hirq.strip(e["b"])
-        if a.get("e") == "mcall" and a["name"] == "len" and b.get("e") == "lit" and isinstance(b.get("lit"), int):
+        root = None
+        if a.get("e") == "mcall" and a["name"] == "len":
+            root = _canon(a["recv"])
+        elif a.get("e") == "path" and a.get("hid") in _LEN_LOCALS:
+            root = _LEN_LOCALS[a["hid"]]          # `let n = x.len();` ... `n != 0`
+        if root and b.get("e") == "lit" and isinstance(b.get("lit"), int):
             n, op = b["lit"], e["op"]
             holds = {"Gt": n >= 0, "Ne": n == 0, "Ge": n >= 1}.get(op, False) if truth else {"Eq": n == 0, "Lt": n <= 1 and n >= 1, "Le": n == 0}.get(op, False)
-            return _canon(a["recv"]) if holds else None
+            return root if holds else None
     return None
+
+
+_LEN_LOCALS = {}
+
+
+def _scan_len_locals(body):
+    """immutable locals that hold the length of a place: `let n = <place>.len();`"""
+    _LEN_LOCALS.clear()
+    assigned = {hirq.path_hid(n["lhs"]) for n in hirq.walk(body.hir["body"]) if n["e"] in ("assign", "assignop")}
+    for n in hirq.walk(body.hir["body"]):
+        if n["e"] == "let" and (n.get("pat") or {}).get("p") == "bind" and n.get("init") is not None and n["pat"].get("hid") not in assigned:
+            i0 = hirq.strip(n["init"])
+            if isinstance(i0, dict) and i0.get("e") == "mcall" and i0["name"] == "len" and not i0.get("args"):
+                r0 = _canon(i0["recv"])
+                if r0:
+                    _LEN_LOCALS[n["pat"]["hid"]] = r0
 
 
 def _facts_of(cond, pol):
@@ -799,6 +820,7 @@ def _ctor_sites(body, variants):
             if isinstance(v, (dict, list)):
                 rec(v, known)
 
+    _scan_len_locals(body)
     rec(body.hir["body"], frozenset())
     return out
 
@@ -835,6 +857,35 @@ def _producer_guarantees_nonempty(unit, body, name):
                         known |= _facts_of(inner["cond"], False)
                 return callee if v and v in known else None
     return None
+
+
+def _callers_pass_nonempty(lib, fb, k):
+    """every call of the private function `fb` passes, as argument k, a vector known non-empty at the call"""
+    callers = [q for q, outs in lib.callgraph.items() if fb.path in outs and q != fb.path and lib.body(q) is not None and lib.body(q).hir and not lib.body(q).in_test_mod()]
+    if not callers:
+        return None
+    hows = []
+    for q in sorted(callers):
+        qb = lib.body(q)
+        if qb.kind == "closure":
+            return None
+        sites = _ctor_sites(qb, {fb.path})
+        for n in hirq.walk(qb.hir["body"]):
+            if n["e"] == "mcall" and n.get("def") == fb.path:
+                return None         # method-call form: not traced
+        if not sites:
+            return None
+        for call, known in sites:
+            if k >= len(call["args"]):
+                return None
+            r2 = _canon(call["args"][k])
+            if r2 and r2 in known:
+                hows.append("tested non-empty in %s" % q.rsplit("::", 1)[-1])
+            elif r2 and "." not in r2 and _producer_guarantees_nonempty(lib, qb, r2):
+                hows.append("%s passes the result of %s, which rejects the empty list" % (q.rsplit("::", 1)[-1], _producer_guarantees_nonempty(lib, qb, r2).rsplit("::", 1)[-1]))
+            else:
+                return None
+    return "; ".join(sorted(set(hows))) if hows else None
 
 
 def err5(ctx):
@@ -901,6 +952,8 @@ def err5(ctx):
                     prod = _producer_guarantees_nonempty(lib, b, root)
                     if prod:
                         how = "returned by %s, which rejects the empty list" % prod.rsplit("::", 1)[-1]
+                    elif not b.is_pub and root in (b.param_names or []):
+                        how = _callers_pass_nonempty(lib, b, (b.param_names or []).index(root))
                 exc = ERR5_PAYLOAD_EXCEPTIONS.get((b.path, vshort, root))
                 if (how is None or nested) and exc:
                     how = "exception: " + exc
